@@ -276,6 +276,37 @@ fn date_on_year(
     }
 }
 
+/// If the start of the range is attached to a year, then the range describes a single interval
+/// which is returned by this function.
+fn single_interval_of_dated_range(
+    (start, start_offset): &(ds::Date, ds::DateOffset),
+    (end, end_offset): &(ds::Date, ds::DateOffset),
+) -> Option<RangeInclusive<NaiveDate>> {
+    let start_year: i32 = match start {
+        ds::Date::Fixed { year: Some(year), .. } | ds::Date::Easter { year: Some(year) } => {
+            (*year).into()
+        }
+        _ => return None,
+    };
+
+    let start = start_offset.apply(date_on_year(*start, start_year, valid_ymd_after)?);
+
+    // If the end is not attached to a year, it is the first occurence that follows the start
+    let end_years = match end {
+        ds::Date::Fixed { year: Some(year), .. } | ds::Date::Easter { year: Some(year) } => {
+            i32::from(*year)..=i32::from(*year)
+        }
+        _ => start_year - 1..=start_year + 2,
+    };
+
+    let end = end_years
+        .filter_map(|y| date_on_year(*end, y, valid_ymd_before))
+        .map(|d| end_offset.apply(d))
+        .find(|end| *end >= start)?;
+
+    Some(start..=end)
+}
+
 impl DateFilter for ds::MonthdayRange {
     fn filter<L>(&self, date: NaiveDate, _ctx: &Context<L>) -> bool
     where
@@ -302,6 +333,14 @@ impl DateFilter for ds::MonthdayRange {
                             .filter_map(|y| NaiveDate::from_ymd_opt(y, 2, 29))
                             .map(|d| start_offset.apply(d)..=end_offset.apply(d)),
                     );
+                }
+
+                if start.has_year() {
+                    return single_interval_of_dated_range(
+                        &(*start, *start_offset),
+                        &(*end, *end_offset),
+                    )
+                    .is_some_and(|rg| rg.contains(&date));
                 }
 
                 is_open_from_bounds(
@@ -359,40 +398,9 @@ impl DateFilter for ds::MonthdayRange {
 
                 Some(next_change_from_bounds(date, [start], [end]))
             }
-            ds::MonthdayRange::Date {
-                start:
-                    (
-                        ds::Date::Fixed {
-                            year: Some(start_year),
-                            month: start_month,
-                            day: start_day,
-                        },
-                        start_offset,
-                    ),
-                end:
-                    (ds::Date::Fixed { year: end_year, month: end_month, day: end_day }, end_offset),
-            } => {
-                let start = start_offset.apply(NaiveDate::from_ymd_opt(
-                    (*start_year).into(),
-                    *start_month as _,
-                    (*start_day).into(),
-                )?);
-
-                let end = {
-                    let candidate = end_offset.apply(NaiveDate::from_ymd_opt(
-                        end_year.unwrap_or_else(|| *start_year).into(),
-                        *end_month as _,
-                        (*end_day).into(),
-                    )?);
-
-                    if start <= candidate {
-                        candidate
-                    } else {
-                        candidate.with_year(candidate.year() + 1)?
-                    }
-                };
-
-                Some(next_change_from_bounds(date, [start], [end]))
+            ds::MonthdayRange::Date { start, end } if start.0.has_year() => {
+                let interval = single_interval_of_dated_range(start, end);
+                Some(next_change_from_intervals(date, interval.into_iter()))
             }
             ds::MonthdayRange::Date {
                 start: (start, start_offset),
